@@ -80,12 +80,16 @@ func c07Gen(rng *rand.Rand, conf string, idx int) any {
 		w.Plugins = append(w.Plugins, C07Plugin{Name: names[k], Idx: fmt.Sprintf("%02d", 10*(k+1)+rng.Intn(10))})
 	}
 	nreq := 1 + rng.Intn(5)
+	if conf == "deep" {
+		conf = "faults"
+		nreq = 5 + rng.Intn(6)
+	}
 	alive := n
 	for i := 0; i < nreq; i++ {
 		rq := C07Req{Event: pick(rng, c07Events)}
 		if conf == "faults" && rng.Intn(3) != 0 && alive > 0 {
 			f := &C07Fault{Victim: rng.Intn(n)}
-			f.Kind = pick(rng, []string{"hang", "error", "stop", "kill", "reset", "cut-r2p", "cut-p2r", "garbage", "hang", "error"})
+			f.Kind = pick(rng, []string{"hang", "error", "stop", "kill", "reset", "cut-r2p", "cut-p2r", "garbage", "hang", "error", "partial-r2p"})
 			f.When = pick(rng, []string{"during", "during", "before"})
 			if f.Kind == "hang" || f.Kind == "error" {
 				f.When = "during"
@@ -98,6 +102,11 @@ func c07Gen(rng *rand.Rand, conf string, idx int) any {
 			}
 			if f.Kind == "garbage" {
 				f.Data = c07Garbage(rng)
+			}
+			if f.Kind == "partial-r2p" {
+				// the runtime's write that crosses this many further bytes is partial and fails (the plugin
+				// died while the runtime was writing to it)
+				f.When, f.Off = "before", 1+rng.Intn(160)
 			}
 			rq.Fault = f
 		} else if conf == "healthy" && rng.Intn(4) == 0 {
@@ -248,6 +257,9 @@ func c07Exec(t *testing.T, w *C07W, sc SchedCfg, base *c07Transcript, rec *c07Tr
 				p.Conn.CutWrite(p.Conn.DeliveredBytes()+f.Off, false)
 			case "garbage":
 				p.Conn.Write(f.Data)
+			case "partial-r2p":
+				re := h.runtimeEnd(p)
+				re.FailWriteAt(re.WrittenBytes() + f.Off)
 			}
 			e.S.Probe("C07.fault." + f.Kind + "." + f.When)
 		}
@@ -470,6 +482,9 @@ func c07Oracle(res *Result, w *C07W, h *H1, plugs []*Plug, outs []*c07Out, fired
 					anyOutcome = true
 				}
 				nontrivial = true
+			case f.Kind == "partial-r2p":
+				status[v] = stMaybe
+				nontrivial = true
 			case f.Kind == "garbage" && didFire:
 				status[v] = stMaybe
 				anyOutcome = true // an undecodable but well-framed reply is outside the statement's fault list
@@ -628,6 +643,8 @@ func c07Oracle(res *Result, w *C07W, h *H1, plugs []*Plug, outs []*c07Out, fired
 				if didFire {
 					unsure[f.Victim] = true
 				}
+			case f.Kind == "partial-r2p":
+				unsure[f.Victim] = true
 			case f.When == "offset":
 			case strings.HasPrefix(f.Kind, "cut") && f.When == "during":
 				// the cut may take effect in this or in a later request
@@ -718,7 +735,7 @@ func init() {
 		Shrink: c07Shrink,
 		Confs: func(tier string) []Conf {
 			if tier == "thorough" {
-				return []Conf{{Name: "grid", Grid: c07GridOffsets * 2 * c07GridVictims * c07GridTypes}, {Name: "faults", Weight: 5}, {Name: "healthy", Weight: 1}}
+				return []Conf{{Name: "grid", Grid: c07GridOffsets * 2 * c07GridVictims * c07GridTypes}, {Name: "faults", Weight: 5}, {Name: "healthy", Weight: 1}, {Name: "deep", Weight: 2}}
 			}
 			return []Conf{{Name: "grid", Grid: c07GridOffsets * 2 * c07GridVictims}, {Name: "faults", Weight: 5}, {Name: "healthy", Weight: 1}}
 		},
